@@ -117,16 +117,27 @@ def gen_db(rng, big=False, wide=False):
         s = list(s)
         rng.shuffle(s)
         sets.append(s)
-    style = rng.choice(["plain", "plain", "uniprot", "odd"])
+    prefix = rng.choice(PREFIXES)
+    style = rng.choice(["plain", "plain", "uniprot", "odd", "prefix-letters"])
     names = []
     for j in range(nprot):
         if style == "plain":
             names.append(f"P{j}")
         elif style == "uniprot":
             names.append(f"sp|Q{j:04d}|PR{j}_HUMAN")
+        elif style == "prefix-letters":
+            # distinct names that begin with letters of the decoy prefix (without being decoys) and agree once those
+            # leading letters are removed: a target and its decoy must be paired by the NAME, not by a stripped form
+            chars = [ch for ch in dict.fromkeys(prefix) if ch not in ",; \t"] or ["d"]
+            for _ in range(50):
+                nm = "".join(rng.choice(chars) for _ in range(rng.randint(1, 3))) + str(j // 2)
+                if not nm.startswith(prefix) and nm not in names:
+                    break
+            else:
+                nm = f"P{j}"
+            names.append(nm)
         else:
             names.append(rng.choice(["P", "p", "dec", "Z|z", "1", "P1", "a;b", "x-"]) + str(j))
-    prefix = rng.choice(PREFIXES)
     mode = rng.choice(["paired", "paired", "paired", "none", "none", "partial"])
     entries = [(n, "".join(s)) for n, s in zip(names, sets)]
     if mode != "none":
